@@ -328,9 +328,16 @@ class CSSImportRule(cssrule.CSSRule):
                 # inherit fetcher for @imports in styleSheet
                 importedSheet._href = fullhref
                 importedSheet._setFetcher(self.parentStyleSheet._fetcher)
-                importedSheet._setCssTextWithEncodingOverride(
-                    cssText, encodingOverride=encodingOverride, encoding=encoding
-                )
+                # as when parsing: problems in the imported sheet are logged,
+                # they do not make setting this rule fail half way
+                raising = self._log.raiseExceptions
+                self._log.raiseExceptions = False
+                try:
+                    importedSheet._setCssTextWithEncodingOverride(
+                        cssText, encodingOverride=encodingOverride, encoding=encoding
+                    )
+                finally:
+                    self._log.raiseExceptions = raising
 
             except (OSError, ValueError) as e:
                 self._log.warn(
